@@ -619,8 +619,14 @@ def r7_fresh_accumulators(repo):
             recv = c.func.value.id
             defs = g.defs_reaching(recv, c)
             live = []
+            def _fresh(v):
+                if isinstance(v, ast.IfExp):
+                    return _fresh(v.body) and _fresh(v.orelse)
+                return isinstance(v, (ast.Dict, ast.DictComp, ast.List, ast.ListComp, ast.Set, ast.SetComp)) or \
+                    (isinstance(v, ast.Call) and isinstance(v.func, (ast.Name, ast.Attribute)) and
+                     src(v.func).split(".")[-1] in ("OrderedDict", "dict", "list", "set", "defaultdict", "copy", "deepcopy"))
             for _d, v, k in defs:
-                fresh = isinstance(v, (ast.Dict, ast.DictComp, ast.List, ast.ListComp, ast.Set, ast.SetComp)) or \
+                fresh = _fresh(v) or isinstance(v, (ast.Dict, ast.DictComp, ast.List, ast.ListComp, ast.Set, ast.SetComp)) or \
                     (isinstance(v, ast.Call) and isinstance(v.func, (ast.Name, ast.Attribute)) and
                      src(v.func).split(".")[-1] in ("OrderedDict", "dict", "list", "set", "defaultdict", "copy", "deepcopy"))
                 if k != "assign" or not fresh:
